@@ -114,6 +114,9 @@ type vOut struct {
 	ID    int            `json:"id"`
 	R     string         `json:"r"` // ok | viol | drift | inconclusive
 	Viol  []vViol        `json:"viol,omitempty"`
+	// cross-store differences left behind by FAILED requests that no successful request
+	// followed in this history: observed, not judged
+	Pending []vViol `json:"pending,omitempty"`
 	Drift *vDrift        `json:"drift,omitempty"`
 	Note  string         `json:"note,omitempty"`
 	Stats map[string]int `json:"stats,omitempty"`
@@ -296,6 +299,10 @@ func (c *vCluster) close() {
 
 const vBadCtr = 999
 
+// how long a name index may lag behind its (already converged) table before the replay
+// goes on regardless
+var vIdxWait = 1500 * time.Millisecond
+
 func vRealLease(l int) node.Key {
 	if l == 0 {
 		return node.KeyFree
@@ -327,6 +334,7 @@ type vRun struct {
 	stats    map[string]int
 	log      []string
 	timeout  time.Duration
+	idxWait  time.Duration
 }
 
 type vDiff struct {
@@ -424,6 +432,7 @@ func vSameView(a, b map[channel.Key]channel.Channel) bool {
 func (r *vRun) quiesce() (map[channel.Key]channel.Channel, error) {
 	dl := time.Now().Add(r.timeout)
 	sleep := 200 * time.Microsecond
+	var agreedAt time.Time
 	for {
 		views := map[int]map[channel.Key]channel.Channel{}
 		for k := 1; k <= r.n; k++ {
@@ -441,8 +450,20 @@ func (r *vRun) quiesce() (map[channel.Key]channel.Channel, error) {
 				break
 			}
 		}
-		if same && r.indexesAgree(auth) {
-			return auth, nil
+		if same {
+			if r.indexesAgree(auth) {
+				return auth, nil
+			}
+			// The replicated tables agree but a name index does not follow. The index is
+			// not what C15 talks about (duplicate names are): go on after a generous wait.
+			if agreedAt.IsZero() {
+				agreedAt = time.Now()
+			} else if time.Since(agreedAt) > r.idxWait {
+				r.stats["name-index-stale-steps"]++
+				return auth, nil
+			}
+		} else {
+			agreedAt = time.Time{}
 		}
 		if time.Now().After(dl) {
 			return nil, fmt.Errorf("metadata did not propagate to every node within %s", r.timeout)
@@ -580,9 +601,10 @@ func vOpts(opt string) []channel.CreateOption {
 
 // exec performs one request through node s.G exactly as the API layer does
 // (db.WithTx + Service.NewWriter(tx)); returns the channels CreateMany handed back.
-func (r *vRun) exec(s vStep) ([]channel.Channel, error) {
+func (r *vRun) exec(s vStep) ([]channel.Channel, []int, error) {
 	nd := r.c.nodes[s.G]
 	var ret []channel.Channel
+	var retBatch []int
 	err := nd.DB.WithTx(r.ctx, func(tx gorp.Tx) error {
 		w := nd.Channel.NewWriter(tx)
 		switch s.T {
@@ -600,6 +622,9 @@ func (r *vRun) exec(s vStep) ([]channel.Channel, error) {
 					return err
 				}
 				ret = append(ret, chs...)
+				for range chs {
+					retBatch = append(retBatch, bi)
+				}
 				if bi+1 < len(batches) {
 					// rows committed by remote leaseholders reach the gateway by gossip
 					if _, err := r.quiesce(); err != nil {
@@ -625,10 +650,47 @@ func (r *vRun) exec(s vStep) ([]channel.Channel, error) {
 		}
 		return fmt.Errorf("unknown request type %q", s.T)
 	})
-	return ret, err
+	return ret, retBatch, err
 }
 
-// requested lease of the entry that produced a returned channel (-1 unknown)
+// vAutoIndex says whether ch is the "<name>_time" index channel the service creates by
+// itself for a calculated entry of this request.
+func vAutoIndex(s vStep, ch channel.Channel) bool {
+	if s.T != "create" || !ch.Free() || !ch.IsIndex || !ch.Virtual {
+		return false
+	}
+	for _, e := range s.Ents {
+		if e.Kind == "calc" && e.Name+"_time" == ch.Name {
+			return true
+		}
+	}
+	return false
+}
+
+// vRequested finds the entry (of batch bi, -1 = any) that produced a returned channel
+// and the leaseholder the caller asked for (-1 unknown).
+func vRequested(s vStep, bi int, ch channel.Channel) (int, string) {
+	if vAutoIndex(s, ch) {
+		return 0, "calc-index"
+	}
+	lo, hi := 0, len(s.Ents)
+	if s.Cut > 0 && bi == 0 {
+		hi = s.Cut
+	} else if s.Cut > 0 && bi == 1 {
+		lo = s.Cut
+	}
+	for _, e := range s.Ents[lo:hi] {
+		if e.Name == ch.Name {
+			if e.Kind == "free" || e.Kind == "calc" {
+				return 0, e.Kind
+			}
+			return e.Lease, e.Kind
+		}
+	}
+	return -1, ""
+}
+
+// requested lease for an entry of that name (any batch; -1 unknown)
 func vRequestedLease(s vStep, name string) (int, string) {
 	for _, e := range s.Ents {
 		if e.Name == name {
@@ -636,9 +698,6 @@ func vRequestedLease(s vStep, name string) (int, string) {
 				return 0, e.Kind
 			}
 			return e.Lease, e.Kind
-		}
-		if e.Kind == "calc" && e.Name+"_time" == name {
-			return 0, "calc-index"
 		}
 	}
 	return -1, ""
@@ -715,7 +774,7 @@ func vReplay(ctx context.Context, h vHist, timeout time.Duration) (out vOut) {
 	r := &vRun{ctx: ctx, c: c, n: h.Nodes, base: map[int]int{}, baseKeys: map[channel.Key]bool{},
 		keyOf: map[string]channel.Key{}, everUsed: map[channel.Key]int{}, gone: map[channel.Key]string{},
 		maxc: map[int]int{}, diffs: map[string]*vDiff{}, names: map[string]bool{}, seen: map[string]bool{}, stats: map[string]int{},
-		timeout: timeout}
+		timeout: timeout, idxWait: vIdxWait}
 	// baseline: the channels every node creates for itself at start-up
 	m0, err := r.quiesce()
 	if err != nil {
@@ -739,6 +798,7 @@ func vReplay(ctx context.Context, h vHist, timeout time.Duration) (out vOut) {
 	for si, s := range h.Steps {
 		step := si + 1
 		var ret []channel.Channel
+		var retBatch []int
 		var rerr error
 		t0 := time.Now()
 		if s.T == "restart" {
@@ -747,7 +807,7 @@ func vReplay(ctx context.Context, h vHist, timeout time.Duration) (out vOut) {
 			}
 			r.stats["restarts"]++
 		} else {
-			ret, rerr = r.exec(s)
+			ret, retBatch, rerr = r.exec(s)
 			if rerr != nil && strings.Contains(rerr.Error(), "INCONCLUSIVE") {
 				return vOut{ID: h.ID, R: "inconclusive", Note: fmt.Sprintf("step %d: %v", step, rerr), Log: r.log}
 			}
@@ -786,10 +846,13 @@ func vReplay(ctx context.Context, h vHist, timeout time.Duration) (out vOut) {
 		// ---- (b) keys: unique, never reused, embed the leaseholder
 		if s.T == "create" && ok {
 			seenRet := map[channel.Key]string{}
-			for _, ch := range ret {
+			for ri, ch := range ret {
 				key := ch.Key()
 				if _, existed := r.prevMeta[key]; existed {
 					continue // retrieved / reused existing channel
+				}
+				if other, dup := seenRet[key]; dup && other == ch.Name {
+					continue // handed back again by a later CreateMany of the same transaction
 				}
 				if other, dup := seenRet[key]; dup && other != ch.Name {
 					r.report(step, "C15 KeysUnique same key returned twice in one create",
@@ -805,7 +868,7 @@ func vReplay(ctx context.Context, h vHist, timeout time.Duration) (out vOut) {
 						fmt.Sprintf("step %d (%s): new channel %q got key %d (lease %d, local %d) which was already assigned at step %d",
 							step, after, ch.Name, key, key.Leaseholder(), key.LocalKey(), first))
 				}
-				want, kind := vRequestedLease(s, ch.Name)
+				want, kind := vRequested(s, retBatch[ri], ch)
 				if want >= 0 && (key.Leaseholder() != vRealLease(want) || ch.Leaseholder != vRealLease(want)) {
 					r.report(step, "C15 KeyEmbedsLease kind="+kind+" via-gateway="+strconv.FormatBool(want != s.G),
 						fmt.Sprintf("step %d (%s through node %d): channel %q requested on leaseholder %d got key %d (leaseholder bits %d, field %d)",
@@ -857,20 +920,24 @@ func vReplay(ctx context.Context, h vHist, timeout time.Duration) (out vOut) {
 			if newc == 0 {
 				continue // reported when it appeared
 			}
-			kind := "user"
-			if _, k := vRequestedLease(s, name); k == "calc-index" {
-				kind = "calc-index"
+			auto := 0
+			for _, ch := range chs {
+				if _, existed := r.prevMeta[ch.Key()]; !existed && vAutoIndex(s, ch) {
+					auto++
+				}
 			}
-			how := "collides-with-existing"
-			if newc >= 2 {
-				how = "created-twice-by-one-request"
+			how := "user"
+			if auto >= 2 {
+				how = "auto-index-created-twice"
+			} else if auto == 1 {
+				how = "auto-index-collides"
 			}
 			keys := []string{}
 			for _, ch := range chs {
 				keys = append(keys, strconv.Itoa(int(ch.Key())))
 			}
 			sort.Strings(keys)
-			r.report(step, fmt.Sprintf("C15 NamesUnique kind=%s how=%s after=%s gateway-is-bootstrapper=%v", kind, how, after, s.G == 1),
+			r.report(step, fmt.Sprintf("C15 NamesUnique how=%s after=%s gateway-is-bootstrapper=%v", how, after, s.G == 1),
 				fmt.Sprintf("step %d (%s through node %d): %d channels named %q exist (keys %s) with name validation on",
 					step, after, s.G, len(chs), name, strings.Join(keys, ",")))
 		}
@@ -882,11 +949,29 @@ func vReplay(ctx context.Context, h vHist, timeout time.Duration) (out vOut) {
 				r.diffs[id] = &vDiff{sig: sig, what: what, step: step}
 			}
 		}
+		// other-lease: the request has an entry of that name on a different leaseholder
 		xlease := func(name string, key channel.Key) string {
-			if want, _ := vRequestedLease(s, name); want >= 0 && s.T == "create" {
-				return " other-lease=" + strconv.FormatBool(vRealLease(want) != key.Leaseholder())
+			if s.T != "create" {
+				return ""
 			}
-			return ""
+			found, other := false, false
+			for _, e := range s.Ents {
+				if e.Name != name {
+					continue
+				}
+				found = true
+				l := e.Lease
+				if e.Kind == "free" || e.Kind == "calc" {
+					l = 0
+				}
+				if vRealLease(l) != key.Leaseholder() {
+					other = true
+				}
+			}
+			if !found {
+				return ""
+			}
+			return " other-lease=" + strconv.FormatBool(other)
 		}
 		for k := 1; k <= r.n; k++ {
 			for key, ech := range engs[k] {
@@ -956,7 +1041,7 @@ func vReplay(ctx context.Context, h vHist, timeout time.Duration) (out vOut) {
 		if ok && s.T != "restart" {
 			for key, ch := range r.prevMeta {
 				if _, still := auth[key]; !still && !ch.Internal {
-					r.gone[key] = vKind(ch) + " after=" + after
+					r.gone[key] = vKind(ch) + " after=" + after + xlease(ch.Name, key)
 				}
 			}
 		}
@@ -1053,11 +1138,18 @@ func vReplay(ctx context.Context, h vHist, timeout time.Duration) (out vOut) {
 	}
 	out.Stats = r.stats
 	out.Stats["steps"] = len(h.Steps)
+	for _, d := range r.diffs {
+		if !d.reported {
+			out.Pending = append(out.Pending, vViol{Sig: d.sig, What: d.what, Step: d.step})
+		}
+	}
 	switch {
 	case len(r.viol) > 0:
 		out.R, out.Viol, out.Drift, out.Log = "viol", r.viol, drift, r.log
 	case drift != nil:
 		out.R, out.Drift, out.Log = "drift", drift, r.log
+	case len(out.Pending) > 0:
+		out.R, out.Log = "pending", r.log
 	default:
 		out.R = "ok"
 	}
@@ -1074,6 +1166,9 @@ func TestVerifChannelReplay(t *testing.T) {
 	workers := 6
 	if w, err := strconv.Atoi(os.Getenv("VERIF_WORKERS")); err == nil && w > 0 {
 		workers = w
+	}
+	if ms, err := strconv.Atoi(os.Getenv("VERIF_INDEX_WAIT_MS")); err == nil && ms > 0 {
+		vIdxWait = time.Duration(ms) * time.Millisecond
 	}
 	timeout := 20 * time.Second
 	if s, err := strconv.Atoi(os.Getenv("VERIF_QUIESCE_S")); err == nil && s > 0 {
